@@ -217,8 +217,9 @@ class _MemoryFile(io.RawIOBase):
             raise IOError("File not open for writing")
         with self._seek_lock():
             self.on_modify()
-            if self._mode.appending:
-                # append mode always writes at the end of the file
+            if self._mode.appending and len(data):
+                # append mode always writes at the end of the file; a
+                # zero-length write has no effect, not even on the position
                 self._bytes_io.seek(0, os.SEEK_END)
             return self._bytes_io.write(data)
 
@@ -229,9 +230,10 @@ class _MemoryFile(io.RawIOBase):
             raise IOError("File not open for writing")
         with self._seek_lock():
             self.on_modify()
-            if self._mode.appending:
+            lines = list(sequence)
+            if self._mode.appending and any(len(line) for line in lines):
                 self._bytes_io.seek(0, os.SEEK_END)
-            self._bytes_io.writelines(sequence)
+            self._bytes_io.writelines(lines)
 
 
 class _DirEntry(object):
